@@ -78,6 +78,6 @@ func (Keeper).ApplyVestingSchedule
                == cadd(old(Ended(time_unix(acc.StartTime), acc.VestingPeriods, len(acc.VestingPeriods), u)), Ended(s, vestingPeriods, len(vestingPeriods), u))
     ensures merged_total: result.3 == nil && result.2 ==> acc.OriginalVesting == cadd(old(acc.OriginalVesting), coins) && ValidCVA(*acc)
     // the switch's default branch is dead code: the four cases are exhaustive
-    unreachable return2
+    unreachable return: return nil, false, true, errorsmod.Wrapf(types.ErrApplyShedule, "failed to initiate vesting for account %s", funded)
     allow frame
 @*/
